@@ -472,7 +472,12 @@ def check_fit_variogram(ctx, c):
     kw = {}
     mode = str(rng.choice(["none", "array", "inv", "callable"]))
     if mode == "array":
-        kw["weights"] = w.add("weights", np.ascontiguousarray(rng.uniform(0.5, 2, size=x.size)))
+        wts = rng.uniform(0.5, 2, size=x.size)
+        if rng.random() < 0.5:
+            # value classes a "clean-up" step could be tempted to repair in place: zero and tiny weights
+            wts[rng.integers(0, x.size, size=2)] = 0.0
+            wts[int(rng.integers(0, x.size))] = 1e-300
+        kw["weights"] = w.add("weights", np.ascontiguousarray(wts))
     elif mode == "inv":
         kw["weights"] = "inv"
     elif mode == "callable":
@@ -560,8 +565,8 @@ def check_transform_arrays(ctx, c):
     w = Watch(ctx)
     data = rng.normal(1.0, 0.7, size=(4, 6) if rng.random() < 0.5 else (20,))
     x = w.add("field", _layout(rng, data, c["layout"]) if c["layout"] != "list" else np.ascontiguousarray(data))
-    vals = w.add("values", np.array([-1.0, 0.5, 2.0]))
-    thr = w.add("thresholds", np.array([0.4, 1.3]))
+    vals = w.add("values", rng.permutation(np.array([-1.0, 0.5, 2.0, 3.5])[: int(rng.integers(3, 5))]))  # class values in the caller's order (not sorted)
+    thr = w.add("thresholds", np.linspace(0.4, 1.6, len(vals) - 1))
     calls = [
         ("array_discrete(arith)", lambda: tf.array_discrete(x, vals)),
         ("array_discrete(equal)", lambda: tf.array_discrete(x, vals, thresholds="equal")),
